@@ -95,7 +95,16 @@ def run(prog: Program, res: Result, tier: str) -> None:
                   and (dotted(_sub_base(fm.expand(s.targets[0], fm.cfg.node_for(s)))) or "").startswith("self.")]
         if rolls and stores:
             updates.append(m)
-    if len(updates) < 2:
+    # the public re-tuning entry points must be among them: one that stores into the cube without np.roll is not a rotation
+    for nm_ in ("update_dm", "update_period"):
+        m_ = cls.methods.get(nm_)
+        if m_ is not None and m_ not in updates:
+            fm_ = flow_of(m_)
+            st_ = [s for s in body_walk(m_.node) if isinstance(s, ast.Assign) and isinstance(s.targets[0], ast.Subscript)
+                   and (dotted(_sub_base(fm_.expand(s.targets[0], fm_.cfg.node_for(s)))) or "").startswith("self.")]
+            res.bad("R4", m_, st_[0] if st_ else m_.node, f"{nm_} changes the cube without np.roll: only a cyclic rotation by the step (modulo nbins, any number of turns) "
+                    "keeps each profile's values and composes with the recorded shifts", key=f"{nm_}:rotate")
+    if len(updates) < 2 and not res.violations():
         raise AnalysisError(f"expected >= 2 in-place rotating update methods in FoldedData, found {len(updates)}")
     header_frozen = any("frozen" in d for d in prog.cls("sigpyproc.header", "Header").decorators)
     hdr_node = prog.cls("sigpyproc.header", "Header").node
